@@ -14,7 +14,7 @@
 #
 
 from fractions import Fraction
-from typing import Optional, List, Union, Dict, Tuple
+from typing import Optional, List, Set, Union, Dict, Tuple
 
 from unified_planning.model.effect import Effect
 from unified_planning.model.expression import ConstantExpression, TimeExpression
@@ -166,6 +166,24 @@ class SchedulingProblem(  # type: ignore[misc]
         res += sum(map(hash, self._activities))
         return res
 
+    def _get_static_and_unused_fluents(
+        self,
+    ) -> Tuple[
+        Set["up.model.fluent.Fluent"],
+        Set["up.model.fluent.Fluent"],
+        Set["up.model.fluent.Fluent"],
+        Set["up.model.fluent.Fluent"],
+    ]:
+        """
+        Support method for the kind computation (see `Problem._get_static_and_unused_fluents`).
+        Only the static fluents (the fluents that no effect of the problem or of its activities
+        modifies) are computed: every fluent is considered used.
+        """
+        static_fluents: Set["up.model.fluent.Fluent"] = set(self._fluents)
+        for _, eff, _ in self.all_effects():
+            static_fluents.discard(eff.fluent.fluent())
+        return static_fluents, set(), set(), set()
+
     @property
     def kind(self) -> "up.model.problem_kind.ProblemKind":
         factory = up.model.problem._KindFactory(self, "SCHEDULING", self.environment)
@@ -179,6 +197,9 @@ class SchedulingProblem(  # type: ignore[misc]
         if len(self.base_effects) > 0:
             factory.kind.set_time("TIMED_EFFECTS")
 
+        for param in self.base_variables:
+            factory.update_action_parameter(param)
+
         for _, cond, _ in self.all_conditions():
             factory.update_problem_kind_expression(cond)
 
@@ -186,6 +207,8 @@ class SchedulingProblem(  # type: ignore[misc]
             factory.update_problem_kind_expression(constraint)
             if len(scope) > 0:
                 factory.kind.set_scheduling("SCOPED_CONSTRAINTS")
+            for scope_exp in scope:
+                factory.update_problem_kind_expression(scope_exp)
 
         for _, eff in self.base_effects:
             factory.update_problem_kind_effect(eff)
@@ -207,6 +230,8 @@ class SchedulingProblem(  # type: ignore[misc]
                 factory.update_problem_kind_expression(constraint)
                 if len(scope) > 0:
                     factory.kind.set_scheduling("SCOPED_CONSTRAINTS")
+                for scope_exp in scope:
+                    factory.update_problem_kind_expression(scope_exp)
 
         factory.update_problem_kind_initial_state(self)
 
